@@ -41,7 +41,7 @@ func (r *Rng) Bytes(n int) []byte {
 
 // ---------------------------------------------------------------- payloads
 
-var payloadFamilies = []string{"empty", "one", "text", "alpha", "random", "nearuniform", "fib", "run", "periodic", "wedge", "alias", "mixed", "dominant", "gaps"}
+var payloadFamilies = []string{"empty", "one", "text", "alpha", "random", "nearuniform", "fib", "run", "periodic", "wedge", "alias", "mixed", "dominant", "gaps", "tokedge"}
 
 var words = []string{"the", "quick", "brown", "fox", "jumps", "over", "lazy", "dog", "opticks", "light", "ray", "prism", "colour", "refraction", "and", "of", "in", "to", "is", "that", "by", "which", "experiment", "\n", ", ", ". "}
 
@@ -164,6 +164,15 @@ func Payload(r *Rng, fam string, n int) []byte {
 				b[i], b[j] = b[j], b[i]
 			}
 		}
+		return b
+	case "tokedge":
+		// incompressible bytes (one literal token each) up to the edge of the 32767-token block buffer, then a
+		// long run (split into 258-byte matches while the buffer fills), then more noise
+		edge := 32767*(1+r.Intn(2)) + r.Pick([]int{-3, -2, -1, 0, 1, 2}) - r.Pick([]int{0, 0, 0, 1, 4})
+		b := r.Bytes(edge)
+		run := make([]byte, r.Pick([]int{259, 600, 5000, 40000}))
+		b = append(b, run...)
+		b = append(b, r.Bytes(r.Intn(3000))...)
 		return b
 	case "gaps":
 		// alphabets whose unused gaps have the lengths at which the header's run-length coding changes
